@@ -239,8 +239,8 @@ def cases(tier, seed):
     # maximum pressures that are not multiples of the 10-psi step (a table built "up to the initial pressure"): the table's
     # spacing is still 10 psi and its differences still agree with quadrature and with the stand-alone transform
     comps = compositions(tier, seed)
-    out += [{"kind": "comp", **comps[1], "nodes": nodes + [600, 1250], "pmax": 1255.0},
-            {"kind": "comp", **comps[0], "nodes": nodes + [2500, 3000], "pmax": 3002.5}]
+    out += [{"kind": "comp", **comps[1], "nodes": list(dict.fromkeys(nodes + [600, 1250])), "pmax": 1255.0},
+            {"kind": "comp", **comps[0], "nodes": list(dict.fromkeys(nodes + [2500, 3000])), "pmax": 3002.5}]
     out += [{"kind": "synth", "grid": g, "integrand": i, "seed": seed}
             for g, i in itertools.product(["uniform", "geometric", "irregular", "uniform-desc", "irregular-desc",
                                            "uniform-int", "irregular-int", "irregular-int-desc", "window", "ramp", "window-desc"],
